@@ -345,4 +345,62 @@ theorem dayChecked_sound (y m d s : Int) (h : dayChecked y m d = some s) : Valid
     · simp [hg2] at h
   · simp [hg1] at h
 
+/-! ## order: `date` / `day` are strictly monotone for the lexicographic order of (y, m, d) -/
+
+/-- the lexicographic order of (y, m, d) as one integer (valid dates have m ≤ 12, d ≤ 31) -/
+def dateKey (v : Int × Int × Int) : Int := 10000 * v.1 + 100 * v.2.1 + v.2.2
+
+theorem nextDate_key (y m d : Int) (h : Valid y m d) : dateKey (y, m, d) < dateKey (nextDate y m d) := by
+  have hd31 := valid_d31 y m d h
+  obtain ⟨hy, hm1, hm2, hd1, hd2, hx⟩ := h
+  unfold nextDate dateKey
+  split
+  · rename_i h1; obtain ⟨rfl, rfl, rfl⟩ := h1; decide
+  · split
+    · show 10000 * y + 100 * m + d < 10000 * y + 100 * m + (d + 1); omega
+    · split
+      · show 10000 * y + 100 * m + d < 10000 * y + 100 * (m + 1) + 1; omega
+      · show 10000 * y + 100 * m + d < 10000 * (y + 1) + 100 * 1 + 1; omega
+
+theorem dateRaw_key_add (s : Int) (hs : 1 ≤ s) (n : Nat) : dateKey (dateRaw s) < dateKey (dateRaw (s + n + 1)) := by
+  induction n with
+  | zero =>
+    have hv := (dayRaw_dateRaw s hs).1
+    have := nextDate_key _ _ _ hv
+    rw [← dateRaw_succ s hs] at this
+    simpa using this
+  | succ n ih =>
+    have hv := (dayRaw_dateRaw (s + n + 1) (by omega)).1
+    have := nextDate_key _ _ _ hv
+    rw [← dateRaw_succ (s + n + 1) (by omega)] at this
+    change dateKey (dateRaw (s + n + 1)) < _ at this
+    have e : s + (n + 1 : Nat) + 1 = s + n + 1 + 1 := by omega
+    rw [e]; omega
+
+/-- `date` is strictly increasing in the lexicographic order of (y, m, d) on day numbers from 1 on -/
+theorem dateRaw_strictMono (s t : Int) (hs : 1 ≤ s) (hst : s < t) : dateKey (dateRaw s) < dateKey (dateRaw t) := by
+  have := dateRaw_key_add s hs (t - s - 1).toNat
+  have e : s + ((t - s - 1).toNat : Int) + 1 = t := by omega
+  rwa [e] at this
+
+/-- `day` orders valid dates as the calendar does -/
+theorem dayRaw_lt_iff (y m d y' m' d' : Int) (h : Valid y m d) (h' : Valid y' m' d') :
+    dayRaw y m d < dayRaw y' m' d' ↔ dateKey (y, m, d) < dateKey (y', m', d') := by
+  have p := dayRaw_pos y m d h
+  have p' := dayRaw_pos y' m' d' h'
+  have r := dateRaw_dayRaw y m d h
+  have r' := dateRaw_dayRaw y' m' d' h'
+  constructor
+  · intro hlt
+    have := dateRaw_strictMono _ _ p hlt
+    rwa [r, r'] at this
+  · intro hk
+    by_cases hlt : dayRaw y m d < dayRaw y' m' d'
+    · exact hlt
+    · exfalso
+      by_cases heq : dayRaw y m d = dayRaw y' m' d'
+      · rw [heq, r'] at r; rw [r] at hk; omega
+      · have := dateRaw_strictMono _ _ p' (by omega : dayRaw y' m' d' < dayRaw y m d)
+        rw [r, r'] at this; omega
+
 end GeoVerif.Calendar
